@@ -382,6 +382,20 @@ theorem C02_lazy_safe_cmap_get (b : Bytes) (t : CmapTable.Table) (c : Cost)
 theorem C02_cmap0_no_panic (data : Bytes) (h : 6 ≤ data.length) : (CmapDir.decodeFormat0 data).noPanic :=
   CmapDir.decodeFormat0_noPanic data h
 
+/-- Since 0c896bc `decodeFormat0` uses its code2rune argument: under a Macintosh key it builds a
+unicode-indexed map in a 256-iteration loop.  That branch never panics either (same `data[6:]` guard),
+costs exactly 256 steps and at most 257 elements, and equals C09b's `Cmap06.decode0c2r`. -/
+theorem C02_cmap0_mac_no_panic (c2r : Nat → Nat) (data : Bytes) (h : 6 ≤ data.length) :
+    (CmapDir.decodeFormat0C2r c2r data).noPanic := CmapDir.decodeFormat0C2r_noPanic c2r data h
+
+theorem C02_cmap0_mac_cost (c2r : Nat → Nat) (data : Bytes) (ws : List (Nat × Nat)) (c : Cost)
+    (h : CmapDir.decodeFormat0C2r c2r data = .ok (ws, c)) : c.steps = 256 ∧ c.alloc ≤ 257 :=
+  let t := CmapDir.decodeFormat0C2r_cost c2r data ws c h; ⟨t.2.1, t.2.2.1⟩
+
+theorem C02_cmap0_mac_agrees (c2r : Nat → Nat) (b : Bytes) :
+    CmapDir.erase (CmapDir.decodeFormat0C2r c2r b) = CmapDir.unsite (Cmap06.decode0c2r c2r b) :=
+  CmapDir.decodeFormat0C2r_erase c2r b
+
 /-- `Format0.Lookup` (as repaired: negative runes are refused) is safe for every rune. -/
 theorem C02_lazy_safe_cmap0 (d : Bytes) (h : d.length = 256) (r : Int) : (CmapDir.lookup0 d r).noPanic :=
   CmapDir.Format0_lookup_safe d h r
